@@ -294,18 +294,21 @@ def run_property(plan: Plan, tier: str, seed: int, contracts_mod_names, replay=N
                 out_lines.append(f"note: {name} fails concretely but is not tagged {pid}")
     # --- obligations refuted by the solver with no concrete input found
     conc_names = {x[0] for x in violations}
-    # (a refuted *invariant* alone is a proof-maintenance problem, not a violation: it stays undecided)
+    # A refuted obligation (the solver returned a counter-model) that passed on the unchanged tree is reported even if no
+    # failing input was found; for loop invariants the report says so: the counter-model is a loop-head state that need not be
+    # reachable, i.e. the change made the invariant non-inductive.  (Timeouts / unknowns stay undecided, exit 2.)
     soft = ("inv-init", "inv-pres", "variant")
     for o in refuted:
-        if o.kind in soft:
-            undec.append(o)
-            continue
         if getattr(o, "witness", None):
             # the prover produced a concrete input and evaluated the real function on it
             violations.append((o.name, o.witness, (o.reason or "") + " | witness replayed on the real function: "
                                + json.dumps(jsonable(o.witness))[:600], None))
         elif not any(o.fn == n.split("/")[0] for n in conc_names):
-            violations.append((o.name, None, "solver: sat\n" + (o.model or "") + (o.reason or ""), "no-failing-input-found"))
+            note = "solver: sat (counter-model of the verification condition)\n"
+            if o.kind in soft:
+                note = ("solver: sat - the loop invariant / variant is no longer established or preserved by the changed code "
+                        "(the counter-model is a loop-head state, not necessarily reachable)\n")
+            violations.append((o.name, None, note + (o.model or "") + (o.reason or ""), "no-failing-input-found"))
     # --- bounded stand-ins
     bounded_reports = []
     for rep in run_isolated(plan.bounded, tier, seed, faults):
@@ -415,25 +418,56 @@ def run_property(plan: Plan, tier: str, seed: int, contracts_mod_names, replay=N
     return 0
 
 
-def do_replay(path):
+def do_replay(path, plans_mod=None):
+    """Re-run a recorded violation on the current tree: exit 1 if it still occurs, 0 if not."""
     with open(path) as f:
         rep = json.load(f)
+    name = rep["obligation"]
+    pid = rep.get("property")
     qn = rep["function"]
     c = S.CONTRACTS.get(qn)
-    if rep.get("inputs") is None or c is None:
-        print(f"replay file has no concrete input (obligation {rep['obligation']}): {rep.get('note')}")
-        print(rep.get("detail", "")[:2000])
-        return 1
-    inp = unjson(rep["inputs"])
-    it = conc.Interp()
-    it._view_wr = {}
-    try:
-        res = it.run(qn, inp, c)
-    except conc.Violation as v:
-        print(f"REPLAYED violation {v.fn}/{v.kind}/{v.label}: {v.detail}")
-        return 1
-    print(f"replay: no violation on the current tree (result {res})")
-    return 0
+    plan = plans_mod.PLANS.get(pid) if plans_mod is not None else None
+    if name.startswith("bounded:") and plan is not None:
+        # violation found by a bounded stand-in: run that harness again and look for the same label
+        hname, _, label = name[len("bounded:"):].partition("/")
+        seed = int(os.environ.get("VERIF_SEED", "0") or 0)
+        for rep2 in run_isolated(plan.bounded, "quick", seed, []):
+            if rep2.get("name") == hname:
+                for (lab, inp, detail) in rep2.get("violations", []):
+                    if lab == label:
+                        print(f"REPLAYED violation {name}: {detail[:300]}")
+                        print(json.dumps(jsonable(inp))[:1500])
+                        return 1
+        print(f"replay: {name} does not occur on the current tree")
+        return 0
+    if rep.get("inputs") is not None and c is not None and c.gen is not None:
+        inp = unjson(rep["inputs"])
+        it = conc.Interp(check_inv=False)
+        it._view_wr = {}
+        try:
+            res = it.run(qn, inp, c)
+        except conc.Violation as v:
+            print(f"REPLAYED violation {v.fn}/{v.kind}/{v.label}: {v.detail}")
+            return 1
+        print(f"replay: no violation on the current tree (result {res})")
+        return 0
+    if plan is not None:
+        # solver / symbolic-prover finding: decide the obligation again on the current tree
+        for ex in plan.extra:
+            for r in ex("quick", 0):
+                if r.name == name:
+                    print(f"obligation {name}: {r.result} {('| ' + json.dumps(jsonable(r.witness))[:800]) if r.witness else ''}")
+                    return 1 if r.result == "refuted" else 0
+        if c is not None:
+            eng = symexec.Engine(qn, c)
+            obls = [o for o in eng.run() if o.name == name]
+            smt.discharge(obls, lambda o: eng.facts[:o.nfacts], timeout_s=30)
+            for o in obls:
+                print(f"obligation {name}: {o.result} ({o.backend})")
+                return 1 if o.result == "refuted" else 0
+    print(f"replay file names obligation {name}; no concrete input is recorded ({rep.get('note')})")
+    print(rep.get("detail", "")[:2000])
+    return 1
 
 
 def main(argv=None):
@@ -445,7 +479,7 @@ def main(argv=None):
     seed = int(os.environ.get("VERIF_SEED", "0") or 0)
     import plans
     if a.replay:
-        return do_replay(a.replay)
+        return do_replay(a.replay, plans)
     plan = plans.PLANS.get(a.pid)
     if plan is None:
         print(f"no check for {a.pid}")
